@@ -23,14 +23,14 @@ type ScopeSpec struct {
 }
 
 type Op struct {
-	K     string `json:"k"` // record pass stopwatch hstopwatch exec close reobtain
+	K string `json:"k"` // record pass stopwatch hstopwatch exec close reobtain
 	// close: Close() the scope of timer T (subscopes only; the handle is kept and used further);
 	// reobtain: ask that scope handle - closed or not - for timer T again (a new name after a close
 	// included) and use the returned handle from now on
-	T     int    `json:"t,omitempty"`
-	D     int64  `json:"d,omitempty"`
-	Pause int    `json:"pause,omitempty"` // microseconds
-	Fail  bool   `json:"fail,omitempty"`
+	T     int   `json:"t,omitempty"`
+	D     int64 `json:"d,omitempty"`
+	Pause int   `json:"pause,omitempty"` // microseconds
+	Fail  bool  `json:"fail,omitempty"`
 }
 
 type Case struct {
@@ -348,6 +348,6 @@ func TestC10(t *testing.T) {
 	pbt.Main(t, pbt.Prop[Case]{
 		ID: "C10", Name: "timers",
 		Rule: "(histories also Close the subscope of a timer and keep recording through old handles and through handles obtained from the closed scope afterwards: still exactly one delivery per Record) rapid-generated histories (1..16 ops) over 1..4 timers in 1..3 derived scopes: Record(d) with int64-extreme/zero/negative durations, report passes, timer stopwatches and duration-histogram stopwatches with 0..1.5 ms pauses (rationed), instrument.Call.Exec with succeeding/failing functions; plain reporter, cached reporter, both configured at once, or a reporter-less test scope. Oracle: exactly one timer delivery inside each Record call with d, name, tags (through the handle when cached); passes deliver no timers; snapshot shows all values in order; stopwatch value bracketed by harness monotonic clock readings taken around Start/Stop; Exec: one call, same error, one latency, exactly one of success/error +1. Non-trivial: >=2 distinct timers used and a report pass between records (or snapshot mode). Distinct: FNV-64 of the case JSON.",
-		Gen:  gen, Run: run,
+		Gen:  gen, Run: run, HangAfter: 20 * time.Second,
 	})
 }
